@@ -90,12 +90,19 @@ Theorem guard_exact_FastIcaParams : forall prec emax fm p, fmt_ok prec emax fm -
   (check_ref_FastIcaParams fm p = None <-> 0 <= val (FastIcaValidParams_tol p)).
 Proof. intros. rewrite (exact_FastIca prec emax), (act_FastIca prec emax) by assumption. reflexivity. Qed.
 
-(* "tolerance should be positive" *)
+(* "tolerance should be positive"; "If the alpha value set for GFunc::Logcosh is not between 1 and 2 inclusive" *)
 Theorem guard_FastIcaParams_vs_documentation : forall prec emax fm p, fmt_ok prec emax fm ->
   wf prec emax (FastIcaValidParams_tol p) ->
-  (0 < val (FastIcaValidParams_tol p) -> check_ref_FastIcaParams fm p = None)
-  /\ (check_ref_FastIcaParams fm p = None -> 0 <= val (FastIcaValidParams_tol p)).
-Proof. intros. rewrite (guard_exact_FastIcaParams prec emax) by assumption. split; intros; lra. Qed.
+  logcosh_ok (FastIcaValidParams_gfunc p) = true ->                                                       (* F-C04-1 *)
+  (0 < val (FastIcaValidParams_tol p) /\ logcosh_ok (FastIcaValidParams_gfunc p) = true -> check_ref_FastIcaParams fm p = None)
+  /\ (check_ref_FastIcaParams fm p = None ->
+      0 <= val (FastIcaValidParams_tol p) /\ logcosh_ok (FastIcaValidParams_gfunc p) = true).
+Proof. intros. rewrite (guard_exact_FastIcaParams prec emax) by assumption. split; intros; [lra | split; [lra | assumption]]. Qed.
+
+(* the boolean above over the reals (alpha is an f64) *)
+Theorem logcosh_alpha_range : forall g, match g with GFunc_Logcosh a => wf 53 1024 a | _ => True end ->
+  (logcosh_ok g = true <-> match g with GFunc_Logcosh a => 1 <= val a <= 2 | _ => True end).
+Proof. exact logcosh_ok_R. Qed.
 
 (** * Builders with a sign-bit test (finding F8: -0.0 is rejected where +0.0 is accepted) *)
 
@@ -400,6 +407,12 @@ Theorem guard_DecisionTreeParams_refuted_F21 : exists p,
   /\ check_ref_DecisionTreeParams fmt64 p <> None.
 Proof. exact refuted_F21. Qed.
 
+(* F-C04-1: Logcosh(10) is outside the documented [1, 2] and is accepted *)
+Theorem guard_FastIcaParams_refuted_FC041 : exists p,
+  (exists a, FastIcaValidParams_gfunc p = GFunc_Logcosh a /\ wf 53 1024 a /\ 2 < val a)
+  /\ check_ref_FastIcaParams fmt64 p = None.
+Proof. exact refuted_FC041. Qed.
+
 (* F42: max_iterations = 0 is outside the documented [1, inf) and is accepted *)
 Theorem guard_ElasticNetParamsBase_refuted_F42 : exists p,
   ElasticNetValidParamsBase_max_iterations p = 0%N /\ check_ref_ElasticNetParamsBase fmt64 p = None.
@@ -560,12 +573,14 @@ Proof.
 Qed.
 
 Theorem oracle_ranges_FastIcaParams : forall prec emax fm p, fmt_ok prec emax fm -> wf prec emax (FastIcaValidParams_tol p) ->
-  (g_strict (spec_FastIcaParams fm p) = true <-> 0 < val (FastIcaValidParams_tol p))
-  /\ (g_loose (spec_FastIcaParams fm p) = true <-> 0 <= val (FastIcaValidParams_tol p))
-  /\ g_known (spec_FastIcaParams fm p) = 0%N.
+  (g_strict (spec_FastIcaParams fm p) = true <->
+   0 < val (FastIcaValidParams_tol p) /\ logcosh_ok (FastIcaValidParams_gfunc p) = true)
+  /\ (g_loose (spec_FastIcaParams fm p) = true <->
+   0 <= val (FastIcaValidParams_tol p) /\ logcosh_ok (FastIcaValidParams_gfunc p) = true)
+  /\ (g_known (spec_FastIcaParams fm p) = 0%N <-> logcosh_ok (FastIcaValidParams_gfunc p) = true).
 Proof.
   intros prec emax fm p Hfm H.
-  split; [exact (strict_FastIca prec emax fm Hfm p H)|]. split; [exact (loose_FastIca prec emax fm Hfm p H) | reflexivity].
+  split; [exact (strict_FastIca prec emax fm Hfm p H)|]. split; [exact (loose_FastIca prec emax fm Hfm p H) | exact (known_FastIca fm p)].
 Qed.
 
 Theorem oracle_ranges_HierarchicalCluster : forall prec emax fm p, fmt_ok prec emax fm ->
@@ -610,23 +625,17 @@ Theorem check_agrees_with_check_ref :
        end.
 Proof. split; [exact every_check_is_canonical | intros; apply check_by_value_spec]. Qed.
 
-(* the blanket Fit / FitWith / Transformer impls of src/param_guard.rs and the hand-written entry points
-   (t-SNE transform; count vectoriser fit, fit_files, fit_vocabulary) are `check_ref` first, then the same call on the checked
-   parameters; such a function returns exactly the (converted) guard error without running anything
-   when the guard fails, and otherwise is the call on the checked parameters *)
+(* the model of `check_ref` first, then the same call on the checked parameters: such a function returns
+   exactly the (converted) guard error without running anything when the guard fails, and otherwise is the
+   call on the checked parameters.  That every entry point on an unchecked builder in the sources has this
+   shape is PropertiesExt.no_entry_point_bypasses_the_guard. *)
 Theorem unchecked_entry_points_return_the_guard_error :
-  blanket_fit_calls_check_ref_first && blanket_fit_with_calls_check_ref_first
-  && blanket_transform_calls_check_ref_first = true
-  /\ forallb (fun t => snd t) explicit_unchecked_entry_points = true
-  /\ forall (Err Res E : Type) (conv : Err -> E) (check_ref : option Err) (checked_call : unit -> Res),
-       match check_ref with
-       | Some e => blanket_fit conv check_ref checked_call = UGuardErr (conv e)
-       | None => blanket_fit conv check_ref checked_call = UDelegated (checked_call tt)
-       end.
-Proof.
-  split; [exact blanket_impls_are_canonical | split; [exact explicit_entry_points_are_canonical |]].
-  intros; apply blanket_fit_spec.
-Qed.
+  forall (Err Res E : Type) (conv : Err -> E) (check_ref : option Err) (checked_call : unit -> Res),
+    match check_ref with
+    | Some e => blanket_fit conv check_ref checked_call = UGuardErr (conv e)
+    | None => blanket_fit conv check_ref checked_call = UDelegated (checked_call tt)
+    end.
+Proof. intros; apply blanket_fit_spec. Qed.
 
 (* every guard the translator found in the workspace has a documented range in Spec.v *)
 Theorem spec_covers_every_translated_builder : all_builders_specified = true.
